@@ -171,7 +171,7 @@ fn gen_built(t: &mut Tape) -> (Vec<E>, ExtOpt, bool, How) {
         1 => t.range(6, 40),
         _ => t.range(41, 200),
     };
-    let allow_long = t.chance(40);
+    let allow_long = t.chance(64);
     let mut v: Vec<E> = Vec::new();
     let mut long_budget = 3usize;
     for _ in 0..n {
@@ -647,7 +647,7 @@ fn check_readback(
     true
 }
 
-fn main() {
+pub fn main() {
     let mut ck = Check::new("C25", "exploration");
     ck.rule("built: 0..200 entries pushed in tape order through State::new/dangerously_push_entry/sort_entries — names over an alphabet around '/' with prefix relations, names of 0xffe..0x2001 bytes, merged and unmerged paths (stage subsets), modes file/exec/symlink/gitlink, ASSUME_VALID, EXTENDED with none/either/both of INTENT_TO_ADD and SKIP_WORKTREE, REMOVE, in-memory-only flags, boundary stat values — written with Extensions::{All,None,Given{..}} x skip_hash through State::write_to / File::write_to / File::write. rewrite: a git-written index (C24 worlds without untracked cache/resolve-undo/split index: TREE valid or partially invalid, sdir, conflicts, extended flags, long names, v4) decoded by File::at, every k-th entry flagged REMOVE and/or ASSUME_VALID toggled, written back. Non-trivial: a name >= 0xfff bytes, or a removed entry followed by a kept one, or an extended flag. Distinct by state/script hash.");
     ck.assume(&format!("{} is the acceptance oracle (ls-files --stage --debug -z, fsck for checksum and entry order); fsck is skipped with skip_hash because git 2.39 does not know null trailers", Git::version()));
@@ -775,6 +775,7 @@ fn main() {
             s.untracked_cache = false;
             s.status = false;
             s.untracked.clear();
+            s.gitignores.clear();
             s.split = false;
             for cf in s.conflicts.iter_mut() {
                 cf.resolve = None;
